@@ -78,7 +78,16 @@ def same_obs(a, b, tol=1e-6):
     return a == b
 
 
-def interior_model(ctx, eps="1/1000000"):
+def interior_model(ctx, eps_list=("1", "1/100", "1/1000000")):
+    """largest-margin interior model (big margins keep float32 Skia meaningful)"""
+    for eps in eps_list:
+        m = _interior_model(ctx, eps)
+        if m is not None:
+            return m
+    return None
+
+
+def _interior_model(ctx, eps="1/1000000"):
     """A model of the path condition in which every decided inequality holds
     with margin eps, so that the float run of the real package follows the same
     branches.  None if the path needs an exact coincidence (validation skipped)."""
@@ -136,6 +145,7 @@ def run_symbolic(
     deadline=None,
     sample_inputs=True,
     allowed=(),
+    compare_obs=True,
 ):
     """Explore harness(h) symbolically.  `harness(h)` returns observables.
 
@@ -193,7 +203,7 @@ def run_symbolic(
                         out["validation_mismatch"].append(
                             f"concrete check failed {ch.failed[:2]} inputs={ {k: float(v) for k, v in inputs.items()} }"
                         )
-                    elif not same_obs(sobs, cobs):
+                    elif compare_obs and not same_obs(sobs, cobs):
                         out["validation_mismatch"].append(
                             f"observables differ sym={sobs!r:.300} con={cobs!r:.300} inputs={ {k: float(v) for k, v in inputs.items()} } choices={h.choices}"
                         )
